@@ -8,7 +8,7 @@ use std::panic::{catch_unwind, AssertUnwindSafe};
 
 pub fn case(rng: &mut Rng, thorough: bool) -> String {
     let n = 1 + rng.below(3);
-    let tp = TreeParams { in_dim: n, out_dim: 1 + rng.below(2), max_depth: if thorough { 4 } else { 3 }, partial16: *rng.pick(&[0, 0, 4]), holes: rng.chance(1, 2) };
+    let tp = TreeParams { in_dim: n, out_dim: 1 + rng.below(2), max_depth: if thorough { 4 } else { 3 }, partial16: *rng.pick(&[0, 0, 4]), holes: rng.chance(1, 2), palette: 0 };
     let t: AffTree<2> = rand_tree(rng, &tp);
     let mut out = String::from("C09 ");
     enc::afftree(&mut out, &t);
